@@ -40,10 +40,10 @@ impl Utf8Accum {
                 self.expected -= 1;
                 if self.expected == 0 {
                     let len = self.partial as usize;
-                    // SAFETY: we checked previously that buffer contains valid utf8
-                    unsafe {
-                        return Some(core::str::from_utf8_unchecked(&self.buffer[..len]));
-                    }
+                    // structure (lead byte + continuation bytes) is correct at this point,
+                    // but overlong encodings, surrogates and values above U+10FFFF
+                    // are still not valid utf-8 and must be dropped
+                    return core::str::from_utf8(&self.buffer[..len]).ok();
                 }
             }
         } else {
